@@ -345,7 +345,9 @@ def matches(st: REF.State, cmd: dict, ob: dict) -> T.Optional[str]:
     it = ob['intro']
     if it is None:
         return 'intro:absent'
-    want = {k: v for k, v in eff.items() if k in st.val or k == 'top:' + RUN.BUILTIN or k in st.override}
+    # (an override of the builtin that merely repeats the global value has no row: no row = the global value)
+    gb, sb = 'top:' + RUN.BUILTIN, 'sub:' + RUN.BUILTIN
+    want = {k: v for k, v in eff.items() if k in st.val or k == gb or (k == sb and k in st.override and eff[sb] != eff[gb])}
     got_it = {intro_key(n): v for n, v in it.items()}
     if set(got_it) != set(want):
         return 'intro:keys'
